@@ -325,6 +325,34 @@ pub fn run(c: &C03Case) -> Outcome {
 		}
 	}
 
+	// ---- (v) finish() then add_file(): finish() "makes it impossible to add new ignore files without re-compiling
+	// the whole set" -- whether the late file takes effect is left open, but what was loaded before must stay:
+	// every verdict equals the one without the late file or the one with it
+	if b.files.len() >= 2 {
+		let last = b.files.len() - 1;
+		if let Ok(mut ff) = build_new(&b.files[..last]) {
+			let without = verdicts(&ff, &origin, &c.probes);
+			ff.finish();
+			let _ = rt.block_on(ff.add_file(&b.files[last]));
+			let after = verdicts(&ff, &origin, &c.probes);
+			o.label("finish-then-add");
+			for (k, p) in c.probes.iter().enumerate() {
+				if p.outside {
+					continue;
+				}
+				if after[k] != without[k] && after[k] != base[k] {
+					o.fail(
+						"finish-then-add:earlier-patterns-lost",
+						dump(format!(
+							"new({last} files), finish(), add_file(file {last}): probe {k} {p:?} is ignored={} although it is ignored={} without the late file and ignored={} with all files loaded normally",
+							after[k], without[k], base[k]
+						)),
+					);
+					return o;
+				}
+			}
+		}
+	}
 	// ---- (i) removing a file that applies in D never changes a verdict outside D
 	{
 		let k = idx(c.remove, b.files.len());
